@@ -40,7 +40,21 @@ func nnp(c *Case) {
 	if nc == nil {
 		fatal("no nnp case")
 	}
+	if nc.GoMaxProcs > 0 {
+		runtime.GOMAXPROCS(nc.GoMaxProcs)
+	}
 	hookInstall()
+	if nc.Mode == "busy" {
+		// CPU-bound goroutines compete for the Ps for the whole run: natural preemption instead of a forced one
+		for i := 0; i < runtime.GOMAXPROCS(0)+2; i++ {
+			go func() {
+				x := 0
+				for {
+					x++
+				}
+			}()
+		}
+	}
 	// threads that exist before the load and do not carry the bit
 	var wg sync.WaitGroup
 	for i := 0; i < 8; i++ {
@@ -63,6 +77,11 @@ func nnp(c *Case) {
 		hookCalls++
 		hookTidIn = syscall.Gettid()
 		switch nc.Mode {
+		case "busy":
+			for i := 0; i < 10; i++ {
+				runtime.Gosched()
+			}
+			time.Sleep(3 * time.Millisecond)
 		case "gosched":
 			var w sync.WaitGroup
 			for i := 0; i < 64; i++ {
@@ -86,6 +105,9 @@ func nnp(c *Case) {
 	}
 	emit(map[string]any{"ev": "start", "pid": os.Getpid(), "uid": os.Getuid(), "tid": syscall.Gettid(), "before": snapshot()})
 	f := buildFilter(c)
+	if nc.CallerLocked {
+		runtime.LockOSThread()
+	}
 	tidBefore := syscall.Gettid()
 	err := seccomp.LoadFilter(f)
 	tidAfter := syscall.Gettid()
